@@ -1819,4 +1819,108 @@ Proof.
   intros o sch ann Hwf Hann Hnd Hen Hfm Hfty Hfbn mid tape v Hgen Hsm.
   exact (gen_in_range_sec o sch ann Hfm Hwf Hnd Hann Hen Hfty Hfbn mid tape v Hgen Hsm).
 Qed.
-Print Assumptions gen_in_range.
+
+(* ---- hence every validity theorem applies to every output of the generator model ---------------- *)
+Lemma gen_outputs_valid o sch ann :
+  wf sch = true -> ann_ok sch ann = true -> NoDup (map a_name ann) -> enums_ok sch ann ->
+  fmap_gen_sound o -> fmap_typed o -> fmap_bytes_norm o ->
+  fmap_sound o (p_scalar utf8_preds) -> fmap_sound o (p_scalar enum_preds) ->
+  forall mid tape v, gen code_variant o sch ann mid tape = Ok v -> N.of_nat (length (emit sch false mid v)) < two63 ->
+    let D := fun Q => deep sch ann Q top_fuel 1 INoField mid v = true in
+    wt_msg sch mid v = true /\ (val_depth v <= 12)%nat /\
+    D utf8_preds /\ D timestamp_preds /\ D duration_preds /\ D fieldmask_preds /\ D enum_preds /\
+    D (no_empty_preds code_variant o ann) /\ D (no_empty_nonnil_preds o) /\ D (disallow_nil_preds o ann) /\
+    D no_nil_elem_preds /\ D (mapper_preds o) /\
+    (o_any o <> [] -> D (any_preds o sch ann)) /\ (o_any o = [] -> D (no_any_field_preds ann)).
+Proof.
+  intros Hwf Hann Hnd Hen Hfm Hfty Hfbn Hu8 Hfe mid tape v Hgen Hsm D.
+  pose proof (gen_in_range o sch ann Hwf Hann Hnd Hen Hfm Hfty Hfbn mid tape v Hgen Hsm) as Hr. unfold D.
+  split; [eapply gen_wt; eauto|]. split; [eapply gen_depth_bounded; eauto|].
+  split; [eapply gen_utf8; eauto|]. split; [eapply gen_timestamp_valid; eauto|]. split; [eapply gen_duration_valid; eauto|].
+  split; [eapply gen_fieldmask_paths; eauto; reflexivity|]. split; [eapply gen_enum_declared; eauto; reflexivity|].
+  split; [eapply gen_no_empty_lists; eauto|]. split; [eapply gen_no_empty_nonnil; eauto; reflexivity|].
+  split; [eapply gen_disallow_nil; eauto|]. split; [eapply gen_no_nil_elements; eauto|]. split; [eapply gen_field_mapper; eauto|].
+  split; [intros Hne; eapply gen_any_resolvable; eauto|intros He; eapply gen_any_absent; eauto; reflexivity].
+Qed.
+
+(* ---- the hypotheses are satisfiable: boolean checkers and the runner's mappers -------------------- *)
+Definition int32b (z : Z) : bool := in_range_z (-2147483648) 2147483648 z.
+Fixpoint fields_enums_okb (fs : list field) (fas : list fannot) : bool :=
+  match fs, fas with
+  | f :: fs', fa :: fas' =>
+    (match f_ty f with TScalar KEnum => negb (is_nilb (a_enum fa)) && forallb int32b (a_enum fa) | _ => true end)
+    && fields_enums_okb fs' fas'
+  | _, _ => true
+  end.
+Fixpoint enums_okb (sch : schema) (ann : annots) : bool :=
+  match sch, ann with
+  | md :: sch', ma :: ann' => fields_enums_okb (m_fields md) (a_fields ma) && enums_okb sch' ann'
+  | _, _ => true
+  end.
+
+Lemma fields_enums_okb_sound fs : forall fas i f fa, fields_enums_okb fs fas = true ->
+  nth_error fs i = Some f -> nth_error fas i = Some fa -> f_ty f = TScalar KEnum -> enum_decl_ok (a_enum fa).
+Proof.
+  induction fs as [|g fs IH]; intros [|ga fas] i f fa H Hf Hfa Ht; try (destruct i; discriminate).
+  cbn [fields_enums_okb] in H. apply andb_true_iff in H. destruct H as [H1 H2]. destruct i as [|i]; cbn [nth_error] in *.
+  - injection Hf as ->. injection Hfa as ->. rewrite Ht in H1. apply andb_true_iff in H1. destruct H1 as [A B]. split.
+    + destruct (a_enum fa); [discriminate|congruence].
+    + apply Forall_forall. intros z Hz. eapply forallb_forall in B; [|exact Hz]. apply RoundTrip.in_range_z_spec in B. exact B.
+  - eapply IH; eauto.
+Qed.
+
+Lemma enums_okb_sound sch : forall ann, enums_okb sch ann = true -> enums_ok sch ann.
+Proof.
+  induction sch as [|md0 sch IH]; intros [|ma0 ann] H mid md ma i f fa Hg Ha Hf Hfa Ht; try (destruct mid; discriminate).
+  cbn [enums_okb] in H. apply andb_true_iff in H. destruct H as [H1 H2]. destruct mid as [|mid]; cbn in Hg, Ha.
+  - injection Hg as ->. injection Ha as ->. eapply fields_enums_okb_sound; eauto.
+  - eapply (IH ann H2 mid); eauto.
+Qed.
+
+Lemma no_mapper_ok o : (forall k d, o_fmap o k d = FmNone) -> fmap_gen_sound o /\ fmap_typed o /\ fmap_bytes_norm o /\
+  fmap_sound o (p_scalar utf8_preds) /\ fmap_sound o (p_scalar enum_preds).
+Proof.
+  intros H. repeat split; intros k; intros; rewrite H in *; intuition discriminate.
+Qed.
+
+(* mapper 1 of the runner: every string from a fixed set *)
+Lemma mapper1_ok o : o_fmap o = fmap_of_id 1 -> fmap_gen_sound o /\ fmap_typed o /\ fmap_bytes_norm o /\
+  fmap_sound o (p_scalar utf8_preds) /\ fmap_sound o (p_scalar enum_preds).
+Proof.
+  intros E.
+  assert (Hcase : forall k d p g, (o_fmap o k d = FmAlways p g \/ o_fmap o k d = FmMaybe p g) ->
+            k = KString /\ p = (fun v => match v with VBytes b => existsb (beqb b) mapped_strings | _ => false end) /\
+            g = (fun x => VBytes (nth (N.to_nat (x mod 3)) mapped_strings []))).
+  { intros k d p g H. rewrite E in H. cbn [fmap_of_id] in H. destruct k; destruct H as [H|H]; try discriminate. injection H as <- <-. auto. }
+  repeat split.
+  - intros k d p g H x. destruct (Hcase k d p g H) as (-> & -> & ->).
+    pose proof (N.mod_upper_bound x 3 ltac:(lia)) as Hx. destruct (x mod 3) as [|[[]|[]|]] eqn:Em; try lia; reflexivity.
+  - intros k d p g v H Hp. destruct (Hcase k d p g H) as (-> & -> & ->). destruct v; try discriminate. reflexivity.
+  - intros d p g H. destruct (Hcase KBytes d p g H) as (Hk & _). discriminate.
+  - intros k d p g v H Hp. destruct (Hcase k d p g H) as (-> & -> & ->). cbn. destruct v; try discriminate.
+    apply existsb_exists in Hp. destruct Hp as (m & Hm & Eb). apply beqb_eq in Eb. subst l.
+    cbn in Hm. destruct Hm as [<-|[<-|[<-|[]]]]; reflexivity.
+  - intros k d p g v H Hp. destruct (Hcase k d p g H) as (-> & -> & ->). reflexivity.
+Qed.
+
+(* non-vacuity: the hypotheses of gen_in_range hold of the demo schema (recursion through a list, a bool-keyed
+   map, a oneof; enum, Timestamp, Duration, FieldMask, Any with accepts_interface) with AnyTypeURLs, NoEmptyLists
+   and the string mapper, and the generator model yields a value there *)
+Definition demo_o : gopts := mk_opts true false [1; 4; 3]%nat 1.
+Lemma gen_in_range_demo :
+  wf sch_demo = true /\ ann_ok sch_demo ann_demo = true /\ NoDup (map a_name ann_demo) /\ enums_ok sch_demo ann_demo /\
+  fmap_gen_sound demo_o /\ fmap_typed demo_o /\ fmap_bytes_norm demo_o /\
+  exists m, gen code_variant demo_o sch_demo ann_demo 0 (lcg 1500 2) = Ok m /\
+            N.of_nat (length (emit sch_demo false 0 m)) < two63 /\ (1 < length (emit sch_demo false 0 m))%nat.
+Proof.
+  split; [vm_compute; reflexivity|]. split; [vm_compute; reflexivity|].
+  split. { cbn. repeat constructor; cbn; intuition discriminate. }
+  split; [apply enums_okb_sound; vm_compute; reflexivity|].
+  destruct (mapper1_ok demo_o eq_refl) as (A & B & C & _). split; [exact A|]. split; [exact B|]. split; [exact C|].
+  assert (H : match gen code_variant demo_o sch_demo ann_demo 0 (lcg 1500 2) with
+              | Ok m => (N.of_nat (length (emit sch_demo false 0 m)) <? two63) && (1 <? length (emit sch_demo false 0 m))%nat
+              | _ => false
+              end = true) by (vm_compute; reflexivity).
+  destruct (gen code_variant demo_o sch_demo ann_demo 0 (lcg 1500 2)) as [m| | |]; try discriminate.
+  exists m. apply andb_true_iff in H. destruct H as [H1 H2]. split; [reflexivity|]. split; [apply N.ltb_lt; exact H1|apply Nat.ltb_lt; exact H2].
+Qed.
